@@ -739,7 +739,7 @@ def run(tier="quick", seed=0):
             for prefix in itertools.product(cfg[3], repeat=min(length, 2)):
                 htasks.append((ci, length, "".join(prefix), hwidths, length <= hlen_measure, length <= hlen_mutation))
     htasks.sort(key=lambda a: -a[1])
-    hrtasks = [(seed, shard, hrandom, 8, 8) for shard in range(16)]
+    hrtasks = [(seed, shard, hrandom, 8, 6) for shard in range(16)]
     with ctx.Pool(procs) as pool:
         # (asynchronously, so that the short history shards fill the gaps between the long enumeration shards)
         a_parts = pool.map_async(_task, tasks, chunksize=1)
@@ -771,7 +771,7 @@ def run(tier="quick", seed=0):
     for t in hrparts:
         hrt.merge(t)
     checks.append(MergedCheck("C03/history-independent/random", "the same on seeded random histories: 3..6 measurements (one of them at width 1) with set_text / set_wrap_mode / set_align_mode / set_layout in between (p = 0.35 each gap)", False,
-                              f"{16 * hrandom} random (configuration, text of length 2..8, history) cases at widths 1..8, seeded", hrt, wall).result())
+                              f"{16 * hrandom} random (configuration, text of length 2..8, history) cases at widths 1..6, seeded", hrt, wall).result())
     if rtasks:
         rt = Tally()
         for t in rparts:
